@@ -1143,8 +1143,11 @@ impl<'a> CompactionIterator<'a> {
 				// Latest REPLACE: not stale (will be output)
 				false
 			} else if is_hard_delete {
-				// Older DELETE: always stale (only latest tombstone matters)
-				true
+				// Older DELETE: for point reads only the latest tombstone matters. With
+				// versioning it is also the barrier that erases the older versions from
+				// history and time-travel reads; above the bottom level those may sit in
+				// deeper tables that are not part of this compaction, so it has to stay.
+				!(self.enable_versioning && !self.is_bottom_level)
 			} else if replace_seen {
 				// A newer REPLACE erased this version
 				true
